@@ -14,14 +14,15 @@ def make_pair(rng, rows, cols, dmin, dmax, bands=None, masks=False, smooth=True,
     is meaningful; `masks` adds mask variables with nodata (1) / invalid (2) blobs."""
     nprng = np.random.default_rng(rng.randrange(1 << 30))
     shape = (rows, cols) if not bands else (len(bands), rows, cols)
-    base = nprng.integers(0, vmax, size=(rows, cols + 16)).astype(np.float32)
+    pad = max(8, abs(dmin) + 1, abs(dmax) + 1)
+    base = nprng.integers(0, vmax, size=(rows, cols + 2 * pad)).astype(np.float32)
     if smooth:
         # planted uniform regions (ties, zero variance)
         r0, c0 = nprng.integers(0, rows), nprng.integers(0, cols)
         base[r0:r0 + 3, c0:c0 + 6] = float(nprng.integers(0, vmax))
     shift = int(nprng.integers(dmin, dmax + 1)) if dmin <= dmax else 0
-    left2d = base[:, 8:8 + cols]
-    right2d = base[:, 8 + shift:8 + shift + cols].copy()
+    left2d = base[:, pad:pad + cols]
+    right2d = base[:, pad + shift:pad + shift + cols].copy()
     noise = nprng.random(size=right2d.shape) < 0.15
     right2d[noise] = nprng.integers(0, vmax, size=int(noise.sum())).astype(np.float32)
 
